@@ -84,16 +84,16 @@ def h_labels(n):
     return fn
 
 
-def h_similar(preset):
-    """two novel 3-exon models with the same intron chain and symbolic ends: detect_similar_isoforms marks one of them"""
+def h_similar(preset, n_exons=3):
+    """two novel models with the same intron chain (2 introns, or a single one) and symbolic ends: detect_similar_isoforms marks one of them"""
     def fn(g):
         params = readfam.matching_params(preset)
-        introns = [(1201, 1999), (2151, 2999)]
+        introns = [(1201, 1999), (2151, 2999)] if n_exons == 3 else [(1201, 2999)]
         models = []
         for k in range(2):
             s = g.int("model%d_start" % k, 900, 1150)
             e = g.int("model%d_end" % k, 3050, 3300)
-            ex = [(s, 1200), (2000, 2150), (3000, e)]
+            ex = [(s, 1200), (2000, 2150), (3000, e)] if n_exons == 3 else [(s, 1200), (3000, e)]
             m = TranscriptModel("chr1", "+", "transcript%d.chr1.nnic" % (k + 1), "novel_gene_chr1_9", ex, TranscriptModelType.novel_not_in_catalog)
             m.intron_path = ((intron_graph.VERTEX_read_start, s),) + tuple(introns) + ((intron_graph.VERTEX_read_end, e),)
             m.intron_path = tuple(introns)
@@ -104,7 +104,8 @@ def h_similar(preset):
         (s0, e0), (s1, e1) = [(m.exon_blocks[0][0], m.exon_blocks[-1][1]) for m in models]
         staggered = OR(AND(s0 < s1, e0 < e1), AND(s1 < s0, e1 < e0))
         g.check(len(sub) >= 1, "of two novel models with the same intron chain on one strand at least one is marked as redundant",
-                detail={"substitutions": dict(sub)}, exclude=g.excl({"C04-same-chain-staggered-ends-both-kept": staggered}))
+                detail={"substitutions": dict(sub)}, exclude=g.excl({"C04-same-chain-staggered-ends-both-kept": staggered,
+                                                                     "C04-mono-intronic-models-never-compared": n_exons == 2}))
         for a, b in sub.items():
             g.check(a != b and b not in sub, "a redundant model is replaced by a model that is kept")
     return fn
@@ -267,6 +268,8 @@ def instances(tier, seed):
         out.append(Instance("filter_bookkeeping[%s]" % preset, h_filter_bookkeeping(preset),
                             [G + "filter_transcripts", G + "delete_from_storage", G + "detect_similar_isoforms", G + "correct_novel_transcript_ends", G + "mapping_quality"],
                             "two novel models with one intron chain: 16 relative placements x 16 read-end patterns x shared read, symbolic unique-read counts and component coverage", weight=800, budget_s=1500))
+        out.append(Instance("similar_mono_intronic[%s]" % preset, h_similar(preset, 2), [G + "detect_similar_isoforms"],
+                            "2 novel two-exon models with one intron, symbolic ends", weight=30, budget_s=600))
         out.append(Instance("similar[%s]" % preset, h_similar(preset), [G + "detect_similar_isoforms", "src.long_read_assigner:LongReadAssigner.assign_to_isoform"],
                             "two novel models with one intron chain, symbolic ends", weight=300, budget_s=1800))
     return out
